@@ -2501,7 +2501,8 @@ MANIFEST = {
                   'are well formed; (c only-if, d) and the refinement for any assignment under the executable guard '
                   'guard_C03_function_zero_tight, which is exact (round 6, C03_guard_exact: false iff the obligation that '
                   'decides the ideal verdict is a function expression whose missing name vanishes; '
-                  'C03_refines_exact_guard, C03_missing_exact_guard, C03_constraints_sound_exact_guard; the round-2 '
+                  'C03_refines_exact_guard, C03_missing_exact_guard, C03_constraints_sound_exact_guard, '
+                  'C03_violation_justified_exact_guard; the round-2 '
                   'guard over all obligations implies it); '
                   'C03_missing_refuted exhibits the known finding in the model.  Round 5: the helpers shared by model and '
                   'specification (Python range, channel renaming / dropping, kept values) are characterised by theorems of '
@@ -2523,8 +2524,8 @@ MANIFEST = {
                   'refinement are proved under a guard that excludes exactly such inputs (round 6: only the obligations '
                   'up to the first failing one count; the over-approximation of the round-2 guard, '
                   'Proofs10.ex_guard_overapprox, is covered now: Proofs11.ex_tight_closes_overapprox; the classification '
-                  'of a rejected case as the known finding, Corr.finding_form, uses the exact guard).  C03_violation_justified '
-                  'is still stated with the round-2 guard.  Six defects fixed in /repo '
+                  'of a rejected case as the known finding, Corr.finding_form, uses the exact guard).  '
+                  'Six defects fixed in /repo '
                   '(nested MappingPT dropped inner constraints; ArithmeticAtomicPT did not declare its measurement '
                   'parameters; a parameter called t broke ArithmeticPT scalars / time dependent ParallelChannelPT '
                   'values; two eager scope copies hiding t changed the result of incomplete assignments (ArithmeticPT, '
